@@ -165,7 +165,7 @@ func dlCase(base string, d dlDesc) (corr.Case, error) {
 
 func runDirLock(c *corr.Ctx) error {
 	c.Meta("run_module", "RunDirLock")
-	c.Meta("rule", "3 contenders (2..4 in random cases) on one directory under the controlled scheduler; schedules: every word of length b over the contenders (b=6 quick, 7 thorough), every schedule of at most 4 runs of lengths 1..4 (thorough: also 5 runs of lengths 1..2), random block schedules; each completed round-robin. Compared after every grant: whether the grant ran, the yield point reached (pc), who has the directory, whether LOCK exists. non-trivial = some contender was refused (busy) or had to retry, or two contenders had the directory. Cases are de-duplicated by observed trace. Process mode: the same comparison with 3 real child processes of the harness binary, each parking at the yield points through pipes (witness schedule + random schedules; thorough: all prefixes of length 5)")
+	c.Meta("rule", "3 contenders (2..4 in random cases) on one directory under the controlled scheduler; schedules: every word of length b over the contenders (b=6 quick, 7 thorough), every schedule of at most 4 runs of lengths 1..4 (thorough: also 5 runs of lengths 1..2), random block schedules; each completed round-robin. Compared after every grant: whether the grant ran, the yield point reached (pc), who has the directory, whether LOCK exists. non-trivial = some contender was refused (busy) or had to retry, or two contenders had the directory. Cases are de-duplicated by observed trace. Database level: NoKV.Open over a recording vfs.FS, writes, Close; every file operation of Close is recorded with whether it is on LOCK and whether a second AcquireDirLock succeeded right before it; the oracle requires no intrusion and no operation on another file after the first operation on LOCK. Process mode: the same comparison with 3 real child processes of the harness binary, each parking at the yield points through pipes (witness schedule + random schedules; thorough: all prefixes of length 5)")
 	c.Meta("exhaustive", true)
 	c.Meta("exhaustive_scope", "3 contenders: all schedule prefixes up to the bound and all schedules with at most 3 context switches with runs of length <= 4 (thorough: also 4 switches, runs <= 2)")
 	base := c.Out
@@ -199,6 +199,15 @@ func runDirLock(c *corr.Ctx) error {
 		for _, cs := range cases {
 			var d dlDesc
 			b, _ := json.Marshal(cs.Desc)
+			var dd dbDesc
+			if json.Unmarshal(b, &dd) == nil && dd.DB {
+				dc, err := dlDbCase(base, dd)
+				if err != nil {
+					return err
+				}
+				c.Emit(dc)
+				continue
+			}
 			if err := json.Unmarshal(b, &d); err != nil {
 				return err
 			}
@@ -207,6 +216,15 @@ func runDirLock(c *corr.Ctx) error {
 			}
 		}
 		return nil
+	}
+	// 0. database level: the directory stays held until Close is done with every other file
+	for _, dd := range []dbDesc{{Sets: 0}, {Sets: 100}, {Sets: 300, Big: true}} {
+		dc, err := dlDbCase(base, dd)
+		if err != nil {
+			return err
+		}
+		c.Count("db_close")
+		c.Emit(dc)
 	}
 	seen := map[string]bool{}
 	var ferr error
